@@ -462,7 +462,8 @@ def r7(led, rid, ctx):
               any(k[0] == "Eager" for k in rows), rid, "all-cases", f.span, "",
               "build_reason no longer distinguishes eager / lazy × reified / plain: %s" % sorted(rows, key=str))
     # evaluation of ReifiedLazy appends the literal
-    g = lib.method("StoredReason", "compute")
+    from .shared import method_view as _mv
+    g = _mv(lib, "StoredReason", "compute")
     paths = [p for p in SymExec(g).run() if not p.diverged]
     for p in paths:
         var = None
